@@ -116,7 +116,10 @@ def main():
     sh("git -C /repo worktree remove --force /tmp/mutrepo; git -C /repo worktree prune; git -C /repo worktree add -q --detach /tmp/mutrepo HEAD")
     rows = []
     for n, (ids, f, old, new, desc) in enumerate(M):
-        if filt and filt not in ids:
+        if filt.startswith("#"):
+            if str(n) not in filt[1:].split(","):
+                continue
+        elif filt and filt not in ids:
             continue
         path = "/tmp/mutrepo/" + f
         src = open(path).read()
